@@ -199,9 +199,14 @@ def user_level_terms(spec, geo):
                 yield ('fermionic', st, [(c['op'], k)], hc, None)
         elif fn in ('add_coupling', 'add_multi_coupling'):
             if fn == 'add_coupling':
-                ops = [(c['op1'], [0] * geo.dim, c['u1']), (c['op2'], list(c['dx']), c['u2'])]
+                dx_ = c['dx'] if isinstance(c['dx'], (list, tuple)) else [c['dx']]      # (1D: a single int is documented)
+                ops = [(c['op1'], [0] * geo.dim, c['u1']), (c['op2'], list(dx_), c['u2'])]
             else:
                 ops = [(o, list(dx), u) for o, dx, u in c['ops']]
+            # op_string: None / 'JW' (both operators fermionic) -> operator product with Jordan-Wigner strings; any other name ->
+            # plain tensor product with that operator on the sites between the operators (documented: "to be used between")
+            ostr = c.get('op_string')
+            kind = 'fermionic' if ostr in (None, 'JW') else 'tensor'
             dxs = [o[1] for o in ops]
             shape = geo.coupling_shape(dxs)
             if any(x <= 0 for x in shape):
@@ -223,7 +228,16 @@ def user_level_terms(spec, geo):
                 # for multi couplings every operator position is checked above)
                 if fn == 'add_coupling' and geo.mps_index(x, c['u1']) is None:
                     continue
-                yield ('fermionic', arr[geo.strength_index(x, dxs)], term, hc, None)
+                st = arr[geo.strength_index(x, dxs)]
+                if c.get('flux') is not None:
+                    # coupling_strength_add_ext_flux (documented): a particle hopping in positive direction around a periodic
+                    # direction picks up exp(+i phase); op1 (at x) creates, op2 (at x + dx) annihilates: the particle moves from
+                    # x + dx to x, i.e. it crosses the boundary w times in NEGATIVE direction, w = floor((x + dx) / L)
+                    for a in range(geo.dim):
+                        if not geo.open[a] and not (a == 0 and not geo.finite):
+                            w = (x[a] + ops[1][1][a]) // geo.Ls[a]
+                            st = st * np.exp(-1j * c['flux'][a] * w)
+                yield (kind, st, term, hc, None if kind == 'fermionic' else [ostr])
         elif fn == 'add_local_term':
             term = []
             for o, idx in c['term']:
@@ -259,7 +273,10 @@ def user_level_terms(spec, geo):
                     for j in allsub:
                         if j <= i:
                             continue
-                        yield ('fermionic', pref, [(c['op_i'], i), (c['op_j'], j)], hc, None)
+                        if c.get('op_string') is None:
+                            yield ('fermionic', pref, [(c['op_i'], i), (c['op_j'], j)], hc, None)
+                        else:
+                            yield ('tensor', pref, [(c['op_i'], i), (c['op_j'], j)], hc, [c['op_string']])
                         pref = pref * lam[j % geo.L]
         elif fn == 'add_exponentially_decaying_centered_terms':
             lam = decode_strength(c['lambda'])
@@ -273,7 +290,7 @@ def user_level_terms(spec, geo):
                     fac = [lam[q] for q in sub if j < q <= i]
                 else:
                     fac = [lam[q] for q in sub if i <= q < j]
-                yield ('tensor', s * np.prod(fac), [(c['op_i'], i), (c['op_j'], j)], hc, ['Id'])
+                yield ('tensor', s * np.prod(fac), [(c['op_i'], i), (c['op_j'], j)], hc, [c.get('op_string') or 'Id'])
         else:
             raise ValueError(fn)
 
@@ -295,11 +312,13 @@ def expected_from_spec(spec, dense):
         else:
             word = {}
             srt = sorted(term, key=lambda t: t[1])
+            nseg = 0
             for n, (o, k) in enumerate(srt):
-                word[k] = o
-                if n + 1 < len(srt):
+                word[k] = (word[k] + ' ' + o) if k in word else o       # (same site: product in the order written)
+                if n + 1 < len(srt) and srt[n + 1][1] > k:
                     for q in range(k + 1, srt[n + 1][1]):
-                        word[q] = strings[n] if len(strings) > 1 else strings[0]
+                        word[q] = strings[nseg] if len(strings) > 1 else strings[0]
+                    nseg += 1
             m = st * dense.tensor(word)
         if hc:
             m = m + m.conj().T
